@@ -147,6 +147,16 @@ Proof.
       rewrite drop_cons_pos by lia. rewrite IH. f_equal. f_equal. lia.
 Qed.
 
+Lemma take_add {A} a b (l : list A) : take (a + b) l = take a l ++ take b (drop a l).
+Proof.
+  revert a. induction l as [|x l IH]; intros a.
+  - reflexivity.
+  - destruct (N.eq_dec a 0) as [->|Ha].
+    + rewrite take_0, drop_0. reflexivity.
+    + rewrite (take_cons_pos (a + b)), (take_cons_pos a), drop_cons_pos by lia.
+      cbn [app]. f_equal. rewrite <- IH. f_equal. lia.
+Qed.
+
 Lemma take_prefix_app {A} n (l : list A) : exists r, l = take n l ++ r.
 Proof. exists (drop n l). symmetry. apply take_drop. Qed.
 
